@@ -1,5 +1,6 @@
 def prepareAffineAxis (c : Rat) (s : Int) (order : Int) : Int × Int × Rat :=
+  let margin : Int := (if (order = (0 : Int)) then (1 : Int) else (0 : Int))
   let x0 : Int := (Py.trunc ((c - (((s : Int) : Rat) / (2 : Rat))) - ((order : Int) : Rat)))
-  let x1 : Int := (((x0 + s) + ((2 : Int) * order)) + (1 : Int))
+  let x1 : Int := ((((x0 + s) + ((2 : Int) * order)) + (1 : Int)) + margin)
   let newc : Rat := (c - ((x0 : Int) : Rat))
   (x0, x1, newc)
